@@ -7,6 +7,7 @@ from scoda.exceptions.bar_exception import BarException
 from scoda.misc.music_theory import Key
 
 ENGINE = "E1-sweep"
+TICK_EVERY = 5      # every 5th case of every unit is repeated with numpy integer ticks (int64 / int32)
 RULE = ("all (numerator, denominator) in {1..7,12}x{2,4,8,16} x durations {0, cap-1, cap, cap+1, 2cap} (+ cap/2, 1) x "
         "note shapes x signature-event configurations (none / matching / conflicting / twice / mixed, at tick 0 or "
         "mid-bar) x key {None, C, F#} x construction route {absolute, relative}; non-trivial = padding, rejection or a "
